@@ -57,6 +57,12 @@ class SubWorld(World):
             return name == "dispose"
         return False
 
+    def truthy(self, it, o):
+        if o.kind == "disposable":
+            # a disposable may define __len__ / __bool__ (an empty CompositeDisposable is falsy): its truth value is arbitrary
+            return z3.Bool("the_returned_disposable_is_truthy")
+        return True
+
     def isinstance(self, it, o, cls):
         n = getattr(cls, "name", "")
         if o.kind == "observer":
